@@ -501,3 +501,103 @@ func RunReloadBinaryCase(seed int64, bin, workDir string) *HistResult {
 	}
 	return res
 }
+
+// RunProfilingBinaryCase (C14): "with profiling disabled the profiling routes do not exist", as the BINARY is configured:
+// flag absent, --enable-profiling=false, PRUNNER_ENABLE_PROFILING=false / 0 (disabled in every one of these), and
+// --enable-profiling as the positive control. Requests carry no token.
+func RunProfilingBinaryCase(seed int64, bin, workDir string) *HistResult {
+	res := &HistResult{Seed: seed, Situations: map[string]map[string]struct{}{}, Evaluations: map[string]int{}}
+	find := func(sig, format string, args ...any) {
+		res.Findings = append(res.Findings, Finding{Props: []string{"C14"}, Sig: sig, Detail: fmt.Sprintf(format, args...), Step: -1})
+	}
+	type cfg struct {
+		name    string
+		args    []string
+		env     []string
+		enabled bool
+	}
+	cfgs := []cfg{
+		{"flag absent", nil, nil, false},
+		{"--enable-profiling=false", []string{"--enable-profiling=false"}, nil, false},
+		{"PRUNNER_ENABLE_PROFILING=false", nil, []string{"PRUNNER_ENABLE_PROFILING=false"}, false},
+		{"PRUNNER_ENABLE_PROFILING=0", nil, []string{"PRUNNER_ENABLE_PROFILING=0"}, false},
+		{"--enable-profiling", []string{"--enable-profiling"}, nil, true},
+	}
+	for ci, c := range cfgs {
+		dir, err := os.MkdirTemp(workDir, "prof-")
+		if err != nil {
+			res.Inconclusive = err.Error()
+			return res
+		}
+		_ = os.WriteFile(filepath.Join(dir, "pipelines.yml"), []byte("pipelines:\n  p:\n    tasks:\n      t:\n        script: [\"true\"]\n"), 0o644)
+		l, err := net.Listen("tcp", "127.0.0.1:0")
+		if err != nil {
+			res.Inconclusive = "no loopback listener: " + err.Error()
+			os.RemoveAll(dir)
+			return res
+		}
+		addr := l.Addr().String()
+		l.Close()
+		secret := "binary-test-secret-0123456789"
+		args := append([]string{"--path", dir, "--data", filepath.Join(dir, "data"), "--address", addr, "--jwt-secret", secret, "--env-files", "", "--config", filepath.Join(dir, "cfg.yml")}, c.args...)
+		cmd := exec.Command(bin, args...)
+		cmd.Dir = dir
+		cmd.Env = append(os.Environ(), c.env...)
+		logf, _ := os.Create(filepath.Join(dir, "prunner.log"))
+		cmd.Stdout, cmd.Stderr = logf, logf
+		if err := cmd.Start(); err != nil {
+			res.Inconclusive = "cannot start the prunner binary: " + err.Error()
+			os.RemoveAll(dir)
+			return res
+		}
+		token := signHS256(secret)
+		get := func(path string, withToken bool) int {
+			req, _ := http.NewRequest("GET", "http://"+addr+path, nil)
+			if withToken {
+				req.Header.Set("Authorization", "Bearer "+token)
+			}
+			resp, err := http.DefaultClient.Do(req)
+			if err != nil {
+				return 0
+			}
+			resp.Body.Close()
+			return resp.StatusCode
+		}
+		up := false
+		for i := 0; i < 400; i++ {
+			if get("/pipelines/", true) == 200 {
+				up = true
+				break
+			}
+			time.Sleep(10 * time.Millisecond)
+		}
+		if !up {
+			b, _ := os.ReadFile(filepath.Join(dir, "prunner.log"))
+			res.Inconclusive = fmt.Sprintf("the prunner binary did not come up with %s: %s", c.name, truncate(string(b), 300))
+		} else {
+			for _, p := range []string{"/debug/pprof/", "/debug/pprof/cmdline", "/debug/vars", "/debug/pprof/goroutine?debug=1"} {
+				code := get(p, false)
+				res.sit("C14", fmt.Sprintf("binary started with %s: GET %s", c.name, p))
+				res.Evaluations["C14"]++
+				if !c.enabled && code != 404 {
+					find("C14:profiling-route-exists-although-disabled", "the binary was started with %s (profiling disabled), yet GET %s without a token answers %d", c.name, p, code)
+				}
+				if c.enabled && code == 404 && p == "/debug/pprof/" {
+					res.Inconclusive = "positive control failed: --enable-profiling does not mount /debug/pprof/"
+				}
+			}
+			// the API itself stays closed without a token in every configuration
+			if code := get("/pipelines/", false); code != 401 {
+				find("C14:request-without-valid-token-not-401", "binary started with %s: GET /pipelines/ without a token answers %d", c.name, code)
+			}
+		}
+		_ = cmd.Process.Kill()
+		_, _ = cmd.Process.Wait()
+		os.RemoveAll(dir)
+		_ = ci
+		if len(res.Findings) > 0 {
+			res.Inconclusive = ""
+		}
+	}
+	return res
+}
